@@ -63,7 +63,9 @@ func entryKinds(thorough bool) []entry {
 
 func allBatches(thorough bool) [][]entry {
 	ks := entryKinds(thorough)
-	var out [][]entry
+	// the empty batch first: Reassembled may be called with no entries at all (the stock
+	// assembler never does, the Stream interface allows it)
+	out := [][]entry{{}}
 	for _, a := range ks {
 		out = append(out, []entry{a})
 	}
@@ -182,8 +184,9 @@ func runOnce(t *testing.T, sc scenario, c *dfs.Chooser) (res result) {
 		bl = append(bl, x)
 	}
 	if sc.endFlag && len(bl) > 0 {
-		last := bl[len(bl)-1].rs
-		last[len(last)-1].End = true
+		if last := bl[len(bl)-1].rs; len(last) > 0 {
+			last[len(last)-1].End = true
+		}
 	}
 	var o obs
 	var asmPanic, conPanic any
